@@ -40,16 +40,16 @@ type failure struct {
 }
 
 type runOut struct {
-	R          *engs.Result
-	Data       *listData
-	Fails      []*failure
-	Evals      int
-	Lines      int
-	Files      int
-	ValStates  int
-	InputsMod  map[string]int // op -> calls that modified their input list (not judged)
-	Dyn        map[string][][]int // case id -> lists the driver chose at run time (pool indices)
-	Times      map[string]float64
+	R         *engs.Result
+	Data      *listData
+	Fails     []*failure
+	Evals     int
+	Lines     int
+	Files     int
+	ValStates int
+	InputsMod map[string]int     // op -> calls that modified their input list (not judged)
+	Dyn       map[string][][]int // case id -> lists the driver chose at run time (pool indices)
+	Times     map[string]float64
 }
 
 // runSlots lets TLC bind the abstract slots to the pool of every exported type.
